@@ -237,6 +237,24 @@ func (s *Server) Normalized(skip ...schema.GroupVersionResource) map[string]inte
 					delete(o, "status")
 				}
 			}
+			if kind, _ := o["kind"].(string); kind == "ControllerRevision" {
+				// the claim list is a set of sets: neither the order of the groups nor that of the
+				// names in a group carries meaning
+				if l, ok := o["children"].([]interface{}); ok {
+					for _, it := range l {
+						if g, ok := it.(map[string]interface{}); ok {
+							if names, ok := g["names"].([]interface{}); ok {
+								sort.Slice(names, func(i, j int) bool { return fmt.Sprint(names[i]) < fmt.Sprint(names[j]) })
+							}
+						}
+					}
+					sort.SliceStable(l, func(i, j int) bool {
+						gi, _ := l[i].(map[string]interface{})
+						gj, _ := l[j].(map[string]interface{})
+						return fmt.Sprint(gi["apiGroup"], "/", gi["kind"]) < fmt.Sprint(gj["apiGroup"], "/", gj["kind"])
+					})
+				}
+			}
 			out[res+":"+k] = o
 		}
 	}
